@@ -555,9 +555,9 @@ Proof.
 Qed.
 
 (* ==================================================================================================
-   Liveness for explicit numbering: eager mode, no kill, numbering that fits the capacity.
+   Liveness for explicit numbering: no kill, numbering that fits the capacity; eager mode, and lazy mode
+   through the fetch gate as repaired by /repo ede7cda.
    ================================================================================================== *)
-Hypothesis eager : c_lazy cfg = false.
 Hypothesis futs_ok : forall k v n, In (n, Fut k v) items -> k < nfut.
 
 Definition nsrc (l : list (nat * msg)) : list (option nat * msg) := map (fun it => (Some (fst it), snd it)) l.
@@ -617,6 +617,7 @@ Definition snd_ok (st : state) : Prop :=
   | SSendWait k m false => nth_error AI (n_sent st) = Some (k, m) /\ src st = nsrc (skipn (S (n_sent st)) items)
   | SSendWait k m true => k = N /\ n_sent st = N
   | SDone => n_sent st = S N
+  | SGate | SGateWait => src st = nsrc (skipn (n_sent st) items) /\ n_sent st <= N
   | _ => False
   end.
 
@@ -689,7 +690,24 @@ Proof.
   intros Hs. unfold produce. rewrite Hs. destruct l as [|it rest]; cbn [nsrc map]; cbn; auto.
 Qed.
 
-(* the sender's state after a push of AI[n_sent], in eager mode *)
+(* the sender after next(iterable): the next entry of the send order in hand, or closing *)
+Lemma snd_ok_produce st n :
+  n_sent st = n -> n <= N -> src st = nsrc (skipn n items) -> snd_ok (produce st).
+Proof.
+  intros En HnN Hsrc. pose proof (produce_nsrc st _ Hsrc) as Hp. unfold snd_ok.
+  assert (Ens : n_sent (produce st) = n).
+  { destruct (produce_view' st) as (_ & _ & E & _). congruence. }
+  destruct (skipn n items) as [|it rest] eqn:Esk.
+  - rewrite Hp, Ens.
+    assert (length (skipn n items) = 0) by (rewrite Esk; reflexivity).
+    rewrite skipn_length in H. lia.
+  - destruct Hp as [Hp1 Hp2]. rewrite Hp1, Ens, Hp2.
+    apply skipn_cons_nth in Esk. destruct Esk as [E1 E2]. split.
+    + destruct it as [k0 m0]. cbn [fst snd]. apply nth_AI_items. exact E1.
+    + rewrite E2. reflexivity.
+Qed.
+
+(* the sender's state after a push of AI[n_sent] *)
 Lemma snd_ok_after_push st1 n closing :
   n_sent st1 = S n -> n <= N ->
   (closing = false -> n < N /\ src st1 = nsrc (skipn (S n) items)) ->
@@ -698,18 +716,9 @@ Lemma snd_ok_after_push st1 n closing :
 Proof.
   intros En HnN Hnc Hc. unfold after_send. destruct closing.
   - unfold snd_ok. cbn [s_pc set_spc n_sent set_closed]. rewrite En, (Hc eq_refl). reflexivity.
-  - rewrite eager. destruct (Hnc eq_refl) as [Hlt Hsrc].
-    pose proof (produce_nsrc st1 _ Hsrc) as Hp. unfold snd_ok.
-    assert (Ens : n_sent (produce st1) = S n).
-    { destruct (produce_view' st1) as (_ & _ & E & _). congruence. }
-    destruct (skipn (S n) items) as [|it rest] eqn:Esk.
-    + rewrite Hp, Ens.
-      assert (length (skipn (S n) items) = 0) by (rewrite Esk; reflexivity).
-      rewrite skipn_length in H. lia.
-    + destruct Hp as [Hp1 Hp2]. rewrite Hp1, Ens, Hp2.
-      apply skipn_cons_nth in Esk. destruct Esk as [E1 E2]. split.
-      * destruct it as [k0 m0]. cbn [fst snd]. apply nth_AI_items. exact E1.
-      * rewrite E2. reflexivity.
+  - destruct (Hnc eq_refl) as [Hlt Hsrc]. destruct (c_lazy cfg).
+    + unfold snd_ok. cbn [s_pc set_spc n_sent src]. rewrite En. split; [exact Hsrc|lia].
+    + apply (snd_ok_produce st1 (S n)); auto.
 Qed.
 
 (* ---------- EX is preserved ---------- *)
@@ -765,7 +774,21 @@ Proof.
   intros HI HE Hen. pose proof HI as (HB & HR & HS). destruct HS as (Hsg & Hcl & Hpc & Hcnt).
   destruct (ex_nk _ HE) as (K1 & K2 & K3). pose proof (ex_snd _ HE) as Hs. unfold snd_ok in Hs.
   unfold sender_step. unfold sender_enabled in Hen.
+  assert (Hgate : forall st', rds st' = rds st -> box st' = box st -> n_sent st' = n_sent st ->
+            killed st' = killed st -> fkilled st' = fkilled st -> k_pc st' = k_pc st -> snd_ok st' -> EX st').
+  { intros st' E1 E2 E3 E4 E5 E6 Hs'. apply (EX_same st); auto; try congruence.
+    intros i r' Hi. rewrite E1 in Hi. apply (ex_rd _ HE _ _ Hi). }
   destruct (s_pc st) eqn:Epc; try contradiction; try discriminate.
+  - (* SGate *)
+    destruct Hs as [Hsrc HnN]. unfold gate_enter. destruct (can_fetch st).
+    + destruct (produce_view' st) as (E1 & E2 & E3 & E4 & E5 & E6). destruct (frame_produce st) as (F1 & _).
+      apply Hgate; auto. apply (snd_ok_produce st (n_sent st)); auto.
+    + apply Hgate; auto. unfold snd_ok. cbn [s_pc set_swoken set_spc n_sent src]. auto.
+  - (* SGateWait, woken *)
+    destruct Hs as [Hsrc HnN]. unfold gate_resume. destruct (can_fetch st).
+    + destruct (produce_view' st) as (E1 & E2 & E3 & E4 & E5 & E6). destruct (frame_produce st) as (F1 & _).
+      apply Hgate; auto. apply (snd_ok_produce st (n_sent st)); auto.
+    + apply Hgate; auto. unfold snd_ok. cbn [s_pc set_swoken n_sent src]. rewrite Epc. auto.
   - (* SSend *)
     assert (Hc : closed st = false) by (destruct (closed st); auto; specialize (Hcl eq_refl); congruence).
     unfold send_enter. rewrite Hc, K2, K1.
@@ -931,7 +954,10 @@ Proof.
   unfold reader_step. destruct (r_pc r) eqn:Epc; auto.
   - unfold pc_okn in Hpc. rewrite Epc in Hpc. destruct Hpc as [HnN Hlog].
     unfold read_enter. destruct (next_ready st n); [apply EX_grab; auto|].
-    unfold maybe_wake_gate. rewrite eager. cbn [andb].
+    destruct (maybe_wake_gate_view cfg (set_rds st (upd i (rd_set_woken (rd_set_pc (rd_set_waiting r (Some n)) (RWait n)) false) (rds st))))
+      as (B1 & B2 & B3 & B4 & B5 & B6 & B7 & B8 & B9).
+    destruct (frame_maybe_wake_gate cfg (set_rds st (upd i (rd_set_woken (rd_set_pc (rd_set_waiting r (Some n)) (RWait n)) false) (rds st))))
+      as (D1 & _).
     eapply (EX_upd_same st _ i r (rd_set_woken (rd_set_pc (rd_set_waiting r (Some n)) (RWait n)) false));
       eauto; try reflexivity.
     unfold rd_ok. cbn. split; auto.
@@ -973,26 +999,27 @@ Qed.
 
 Lemma EX_init drives : drives <> [] -> EX (init cfg drives numbered_source None nfut).
 Proof.
-  intros Hd. unfold init. rewrite eager.
+  intros Hd. unfold init.
   set (st0 := mkState [] 0 false false false (map init_reader drives) SGate false numbered_source None
                       (repeat false nfut)).
+  assert (Hsrc : src st0 = nsrc (skipn 0 items)) by reflexivity.
+  assert (HE0 : EX st0).
+  { constructor.
+    - exact I.
+    - intros k m [].
+    - intros k m [].
+    - intros i r Hi. cbn [rds st0] in Hi. apply nth_error_map_some in Hi.
+      destruct Hi as (d & _ & ->). unfold rd_ok. cbn. split; [intros k Hk; lia|reflexivity].
+    - unfold snd_ok. cbn [s_pc st0 n_sent]. split; [exact Hsrc|lia].
+    - cbn. auto.
+    - cbn [rds st0]. destruct drives; [congruence|discriminate].
+    - cbn. lia. }
+  destruct (c_lazy cfg); [exact HE0|].
   destruct (produce_view' st0) as (E1 & E2 & E3 & E4 & E5 & E6).
   destruct (frame_produce st0) as (F1 & _).
-  assert (Hsrc : src st0 = nsrc (skipn 0 items)) by reflexivity.
-  pose proof (produce_nsrc st0 _ Hsrc) as Hp. cbn [skipn] in Hp.
-  constructor.
-  - rewrite E2. exact I.
-  - rewrite E2. intros k m [].
-  - unfold sent. rewrite E3. cbn [n_sent st0 firstn]. intros k m [].
-  - intros i r Hi. rewrite E1 in Hi. cbn [rds st0] in Hi. apply nth_error_map_some in Hi.
-    destruct Hi as (d & _ & ->). unfold rd_ok. cbn. split; [intros k Hk; lia|reflexivity].
-  - unfold snd_ok. rewrite E3. cbn [n_sent st0]. destruct items as [|it rest] eqn:Eit.
-    + rewrite Hp. reflexivity.
-    + destruct Hp as [H1 H2]. rewrite H1, H2. split; [|reflexivity].
-      destruct it as [k0 m0]. cbn [fst snd]. unfold AI. rewrite Eit. reflexivity.
-  - rewrite E4, E5, F1. cbn. auto.
-  - rewrite E1. cbn [rds st0]. destruct drives; [congruence|discriminate].
-  - rewrite E3. cbn. lia.
+  apply (EX_same st0); auto; try congruence.
+  - intros i r' Hi. rewrite E1 in Hi. apply (ex_rd _ HE0 _ _ Hi).
+  - apply (snd_ok_produce st0 0); auto. lia.
 Qed.
 
 Lemma wdone_len drives killer sched st :
@@ -1039,12 +1066,15 @@ Qed.
 
 Theorem numbered_deadlock_free drives sched st :
   drives <> [] -> (forall c, c_cap cfg = Some c -> 1 <= c) -> fits (c_cap cfg) (map fst items) ->
+  (c_lazy cfg = true -> In true drives) ->
   run cfg (init cfg drives numbered_source None nfut) sched = Some st ->
   (exists t, enabled st t = true) \/ all_terminal st = true.
 Proof.
-  intros Hd Hcap Hfits Hrun.
+  intros Hd Hcap Hfits Hlz Hrun.
   destruct (reach_EX _ _ _ Hd Hrun) as [HI HE].
-  pose proof (mailbox_no_lost_wakeup_gen _ _ _ _ _ _ _ Hrun) as (HWR & HWS & _ & _).
+  pose proof (mailbox_no_lost_wakeup_gen _ _ _ _ _ _ _ Hrun) as (HWR & HWS & HWG & HGL).
+  pose proof (WT_reachable _ _ _ _ _ _ _ Hrun) as HWT.
+  pose proof (drives_reachable_gen _ _ _ _ _ _ _ Hrun) as Hdr.
   pose proof (wdone_len _ _ _ _ Hrun) as Hwl.
   destruct (existsb (enabled st) (tids st)) eqn:E.
   { left. apply existsb_exists in E. destruct E as (t & _ & Ht). eauto. }
@@ -1077,6 +1107,33 @@ Proof.
   { pose proof (ex_snd _ HE) as Hs. pose proof (Hno TS) as Hsen. cbn [enabled] in Hsen.
     unfold sender_enabled in Hsen. unfold snd_ok in Hs.
     destruct (s_pc st) eqn:Epc; try contradiction; try discriminate.
+    - (* waiting at the lazy fetch gate, not woken: _can_fetch is false *)
+      exfalso. destruct Hs as [_ HnN]. specialize (HWG Epc Hsen).
+      assert (Hlazy : c_lazy cfg = true) by (apply HGL; auto).
+      unfold can_fetch in HWG. rewrite K1 in HWG.
+      destruct (existsb (waits_buffered st) (rds st)) eqn:Ewb.
+      + (* a subscriber waits for a buffered message: its wait predicate is true, so it was woken *)
+        apply existsb_exists in Ewb. destruct Ewb as (r & Hin & Hwb).
+        apply In_nth_error in Hin. destruct Hin as (i & Hi).
+        unfold waits_buffered in Hwb. destruct (r_waiting r) as [x|] eqn:Ewait; [|discriminate].
+        pose proof (HWT _ _ Hi) as Hwt. unfold wt_ok in Hwt.
+        destruct (Hrd _ _ Hi) as [[Hdone _]|(Hwait & Hwk & _)].
+        * rewrite Hdone, Ewait in Hwt. discriminate.
+        * rewrite Hwait, Ewait in Hwt. inversion Hwt; subst x.
+          pose proof (HWR _ _ _ Hi Hwait Hwk) as Hnr. unfold next_ready in Hnr. rewrite Hwb in Hnr. discriminate.
+      + (* no driving subscriber waits: a driver has finished, but the end marker was not sent *)
+        specialize (Hlz Hlazy). rewrite <- Hdr in Hlz. apply in_map_iff in Hlz.
+        destruct Hlz as (r & Hrd1 & Hin). apply In_nth_error in Hin. destruct Hin as (i & Hi).
+        assert (Hnd : Mailbox.drives r = false).
+        { destruct (Mailbox.drives r) eqn:E0; auto. rewrite <- HWG. symmetry. apply existsb_exists.
+          exists r. split; auto. eapply nth_error_In; eauto. }
+        unfold Mailbox.drives in Hnd. rewrite Hrd1 in Hnd. cbn [andb] in Hnd.
+        pose proof (HWT _ _ Hi) as Hwt. unfold wt_ok in Hwt.
+        destruct (Hrd _ _ Hi) as [[Hdone Hgt]|(Hwait & Hwk & _)].
+        * destruct (ex_rd _ HE _ _ Hi) as [Hsent _]. destruct (Hsent N Hgt) as (m' & Hm').
+          apply (sent_mono _ N) in Hm'; [|exact HnN].
+          apply (unsent N N Stop m'); auto. unfold AI. rewrite nth_error_app2, Nat.sub_diag by lia. reflexivity.
+        * rewrite Hwait in Hwt. rewrite Hwt in Hnd. discriminate.
     - (* waiting for room, not woken: the box is full *)
       exfalso. specialize (HWS _ _ _ Epc Hsen). unfold can_write in HWS. rewrite K1, orb_false_r in HWS.
       unfold room in HWS. destruct (c_cap cfg) as [cc|] eqn:Ec; [|discriminate].
@@ -1154,17 +1211,17 @@ Qed.
 Theorem numbered_safe_and_live cfg items nfut :
   Permutation (map fst items) (seq 0 (length items)) ->
   (forall k m, In (k, m) items -> is_stop m = false) ->
-  c_lazy cfg = false ->
   (forall k v n, In (n, Fut k v) items -> k < nfut) ->
   forall (drives : list bool) (sched : list tid) (st : state),
     drives <> [] -> (forall c, c_cap cfg = Some c -> 1 <= c) -> fits (c_cap cfg) (map fst items) ->
+    (c_lazy cfg = true -> In true drives) ->
     run cfg (init cfg drives (numbered_source items) None nfut) sched = Some st ->
     ((exists t, enabled st t = true) \/ all_terminal st = true) /\
     (forall i r, nth_error (rds st) i = Some r ->
        is_prefix (r_log r) (expected items) /\ (r_pc r = RDone -> r_log r = expected items)) /\
     (all_terminal st = true -> forall i r, nth_error (rds st) i = Some r -> r_log r = expected items).
 Proof.
-  intros Hp Hns He Hf drives sched st Hd Hc Hfit Hrun.
+  intros Hp Hns Hf drives sched st Hd Hc Hfit Hlz Hrun.
   destruct (perm_facts _ Hp) as (H1 & H2 & H3).
   pose proof (numbered_delivery_safe cfg items nfut H1 H2 Hns drives None sched st Hrun) as Hsafe.
   split; [eapply numbered_deadlock_free; eauto|]. split; [exact Hsafe|].
